@@ -973,8 +973,19 @@ class InspectFunction(object):
         # For now, do not look carefully at the arguments, just parse the arguments of
         # the functions.
         # TODO: add more arguments if we can parse constant arguments
+        named_args = get_arg_ctx_ast(caller_fun, [], OrderedDict())
+        # The arguments of the call are not parsed: a parameter that the call binds explicitly is
+        # unknown (it is not bound to its default value), and the call-site context is used.
+        bound = list(named_args.keys())[: len(node.args)] + [
+            kw.arg for kw in node.keywords
+        ]
+        if any(isinstance(a, ast.Starred) for a in node.args) or None in bound:
+            bound = list(named_args.keys())
+        for arg_name in bound:
+            if arg_name in named_args:
+                named_args[arg_name] = None
         arg_ctx = FunctionArgContext(
-            named_args=get_arg_ctx_ast(caller_fun, [], OrderedDict()),
+            named_args=named_args,
             inner_call_key=context_sig,
         )
         new_call_stack = call_stack + [caller_fun_path]
